@@ -9,7 +9,9 @@ import (
 	"flag"
 	"fmt"
 	"os"
+	"path/filepath"
 	"reflect"
+	"sort"
 	"strings"
 	"sync"
 
@@ -279,6 +281,7 @@ func main() {
 	outp := fs.String("out", "", "output json")
 	replay := fs.String("replay", "", "replay file (json case)")
 	known := fs.String("known", "", "comma separated tags of known findings whose input classes are generated too")
+	corpus := fs.String("corpus", "", "directory of replay files run before the generated cases")
 	fs.Parse(os.Args[2:])
 	if os.Args[1] != "roundtrip" {
 		fmt.Fprintln(os.Stderr, "unknown subcommand")
@@ -312,6 +315,32 @@ func main() {
 		}
 		cases = append(cases, rp.Case)
 	} else {
+		if *corpus != "" {
+			files, _ := filepath.Glob(filepath.Join(*corpus, "*.json"))
+			sort.Strings(files)
+			for _, f := range files {
+				b, err := os.ReadFile(f)
+				if err != nil {
+					panic(err)
+				}
+				var rp struct {
+					Case Case `json:"case"`
+				}
+				if err := json.Unmarshal(b, &rp); err != nil {
+					panic(f + ": " + err.Error())
+				}
+				// witnesses of known findings only when the finding is listed (else they are plain violations)
+				ok := true
+				for _, t := range rp.Case.Tags {
+					if !strings.Contains(","+*known+",", ","+t+",") {
+						ok = false
+					}
+				}
+				if ok {
+					cases = append(cases, rp.Case)
+				}
+			}
+		}
 		cases = append(cases, g.boundaryCases()...)
 		for i := 0; i < *n; i++ {
 			cases = append(cases, g.randomCase())
@@ -325,7 +354,7 @@ func main() {
 		kl := &classify{o: c.Opts, cached: cachedSentinels(c.Opts), tags: map[string]bool{}}
 		kl.desc(c.T)
 		kl.walk(c.T, c.V)
-		c.Tags = nil
+		c.Tags = []string{}
 		for _, t := range []string{"zero-width-elem", "map-array-key", "atommap-target>255"} {
 			if kl.tags[t] {
 				c.Tags = append(c.Tags, t)
